@@ -454,7 +454,9 @@ func runMode(t *testing.T, property string, scenarios []*Scenario) {
 	}
 	deadline := start.Add(budget)
 
-	runScenario := func(sc *Scenario, until time.Time) {
+	// runScenario sweeps sc once; the returned function sweeps an enumerated catalogue
+	// again under another seed (reports false when the budget cut it short).
+	runScenario := func(sc *Scenario, until time.Time) func() bool {
 		st := &ScenarioStats{Enumerated: sc.Enumerated}
 		res.PerScenario[sc.Name] = st
 		idx := 0
@@ -552,24 +554,38 @@ func runMode(t *testing.T, property string, scenarios []*Scenario) {
 		sc.Gen(g)
 		st.Complete = !stopped
 		st.Emitted = idx
-		// An enumerated catalogue that finished early is swept again under further
-		// seeds (other transport schedules, keys, payloads) while budget remains.
-		for st.Complete && sc.Enumerated && len(random) == 0 && maxCases == 0 && time.Now().Before(until) && st.Rounds < 1000 {
+		return func() bool {
+			if !st.Complete || stopped || st.Rounds >= 1000 {
+				return false
+			}
 			st.Rounds++
 			idx = 0
 			g.Seed = seed + uint64(st.Rounds)*7_777_777
 			sc.Gen(g)
-			if stopped {
-				break
-			}
+			return !stopped
 		}
 	}
 	enumUntil := start.Add(budget * 3 / 4)
 	if len(random) == 0 {
 		enumUntil = deadline
 	}
+	var again []func() bool
 	for _, sc := range enum {
-		runScenario(sc, enumUntil)
+		again = append(again, runScenario(sc, enumUntil))
+	}
+	// Enumerated catalogues that finished early are swept again, in turn, under further
+	// seeds (other transport schedules, keys, payloads) while budget remains - only when
+	// the property has no random scenario to spend the time on.
+	for len(random) == 0 && maxCases == 0 && time.Now().Before(enumUntil) {
+		progressed := false
+		for _, f := range again {
+			if f() {
+				progressed = true
+			}
+		}
+		if !progressed {
+			break
+		}
 	}
 	remain := time.Until(deadline)
 	if remain < 0 {
@@ -582,7 +598,7 @@ func runMode(t *testing.T, property string, scenarios []*Scenario) {
 			w = 1
 		}
 		cur = cur.Add(remain * time.Duration(w) / time.Duration(totalW))
-		runScenario(sc, cur)
+		_ = runScenario(sc, cur)
 	}
 	res.WallS = time.Since(start).Seconds()
 	res.Nontrivial = len(hashes)
